@@ -1,9 +1,11 @@
 use crate::common::CheckSpec;
 
+pub mod c01;
 pub mod c09;
+pub mod smoke;
 
 pub fn all() -> Vec<CheckSpec> {
-    vec![c09::spec()]
+    vec![c01::spec(), c09::spec(), smoke::spec()]
 }
 
 pub fn find(id: &str) -> Option<CheckSpec> {
